@@ -89,3 +89,9 @@ func (st *StateDB) VerifC09DelegationBalance(addr common.Address) *big.Int {
 	}
 	return new(big.Int).Set(o.data.DelegationBalance)
 }
+
+// VerifC09ValDirtyObj reports membership of validatorObjectsDirty.
+func (st *StateDB) VerifC09ValDirtyObj(addr common.Address) bool {
+	_, ok := st.validatorObjectsDirty[addr]
+	return ok
+}
